@@ -91,6 +91,10 @@ def gen(tier, seed):
                 "e: int", timeout=120)
     add("print_parse_value", "c18-print-parse-value", "print_parse_value(a, 'B', (1, -2, 1))", ["pre: -1e9 < a < 1e9"],
         "printing a quantity and parsing it back gives a bit-identical value and the same unit (value realised at str(float))", "a: float", timeout=20)
+    add("print_parse_hard", "c18-print-parse-value", "print_parse_hard(k, u)", ["pre: 0 <= k <= 19 and 0 <= u <= 3"],
+        "printing a quantity and parsing it back gives a bit-identical value for 20 doubles that need up to 17 significant digits (sums like 0.1+0.2, sqrt 2, pi, subnormal, largest finite, 2^53+1, ...) in 4 unit systems",
+        "k: int, u: int", viol="the text of a quantity does not identify its value: print-parse returns another double")
+    conds[-1]["enumerate"] = True
     add("parse_fresh", "c18-parse-fresh", "parse_fresh(k, m)", ["pre: 0 <= k <= 9 and 0 <= m <= 2"],
         "reading a text is a pure function of the text: each call returns its own object, and editing a returned unit (exponents / base units) does not change what the same text reads as afterwards, through parse_units, Units(text), UnitValue(v, text) and parse_unitvalue (10 texts x 3 edits)",
         "k: int, m: int", viol="the reading of a unit text depends on what was done to the result of an earlier reading of the same text")
